@@ -22,13 +22,13 @@ Definition bayes_table : table := mkTable (Some (mkTitle 1 false None)) bayes_fr
    the designated row says OBJ = 8 and the reported objective value is NaN *)
 Theorem ofv_final_obj_neq_last_refuted :
   exists (t : table) (g : frame),
-    design_of t = None /\ ext_data_frame (tb_frame t) = ROk g /\ g_has_iter0 g = true /\
+    design_of t = None /\ ext_data_frame (tb_frame t) = ROk g /\
     g_final_obj_eq_last g = false /\
     get_ofv g code_final = ROk (fnum 8) /\
     exists entries, parse_ofv [t] = ROk (CNaN, entries).
 Proof.
   exists bayes_table. eexists. split; [reflexivity|]. split; [vm_compute; reflexivity|].
-  split; [vm_compute; reflexivity|]. split; [vm_compute; reflexivity|]. split; [vm_compute; reflexivity|].
+  split; [vm_compute; reflexivity|]. split; [vm_compute; reflexivity|].
   eexists. vm_compute. reflexivity.
 Qed.
 
@@ -49,28 +49,22 @@ Proof.
   eexists. eexists. eexists. vm_compute. reflexivity.
 Qed.
 
-(* C20-NO-ITER0: iterations 5, 10 and the final row (same OBJ as iteration 10): g_has_iter0 is false,
-   the final row is not the first row, and the reported objective value is NaN *)
+(* ---- regression examples of defects that were FIXED in /repo (formerly _refuted witnesses) ---- *)
+
+(* C20-NO-ITER0 (fixed 54e76a4): iterations 5, 10 and the final row (same OBJ as iteration 10), no iteration 0.
+   Formerly the objective value was NaN; now it is the designated one and the iterations are 5 and 10. *)
 Definition noiter0_frame : frame :=
   mkFrame [s_ITERATION; s_THETA1; s_OBJ]
           [(0%nat, [fnum 5; fnum 1; fnum 10]); (1%nat, [fnum 10; fnum 2; fnum 9]);
            (2%nat, [fnum (-1000000000); fnum 2; fnum 9])].
 
-Theorem ofv_no_iter0_refuted :
-  exists (t : table) (g : frame),
-    design_of t = None /\ ext_data_frame (tb_frame t) = ROk g /\ g_final_obj_eq_last g = true /\
-    g_has_iter0 g = false /\ g_final_first g = false /\
-    get_ofv g code_final = ROk (fnum 9) /\
-    exists entries, parse_ofv [t] = ROk (CNaN, entries).
-Proof.
-  exists (mkTable (Some (mkTitle 1 false None)) noiter0_frame). eexists.
-  split; [reflexivity|]. split; [vm_compute; reflexivity|]. split; [vm_compute; reflexivity|].
-  split; [vm_compute; reflexivity|]. split; [vm_compute; reflexivity|]. split; [vm_compute; reflexivity|].
-  eexists. vm_compute. reflexivity.
-Qed.
+Example no_iter0_fixed :
+  parse_ofv [mkTable (Some (mkTitle 1 false None)) noiter0_frame] =
+  ROk (fnum 9, [(1%nat, fnum 5, fnum 10); (1%nat, fnum 10, fnum 9)]).
+Proof. vm_compute. reflexivity. Qed.
 
-(* C20-NOHEADER-FIRST-ROW: a $TABLE file written with NOHEADER (no label line): the first record is taken for the
-   labels, so one record is missing — parse (render x) = x fails exactly on the conjunct w_showlabels of wbody_ok *)
+(* C20-NOHEADER-FIRST-ROW (fixed 5f0fde5): a $TABLE file written with NOHEADER (no title, no label line), read with
+   notitle and nolabel.  Formerly the first record was taken for the labels (1 row); now both records are data. *)
 Definition e_num (neg : bool) (d6 : text) (eneg : bool) (e2 : text) : wnum := WSci neg d6 eneg e2.
 Definition noheader_table : wtable :=
   mkWTable None [s_ID; [68;86]]
@@ -78,18 +72,14 @@ Definition noheader_table : wtable :=
      [e_num false [50;48;48;48;48;48] false [48;48]; e_num true [51;53;48;48;48;48] false [48;48]]]
     false 0 false.
 
-Theorem noheader_refuted :
-  w_showlabels noheader_table = false /\
-  wbody_ok (mkWTable None (w_labels noheader_table) (w_rows noheader_table) false 0 true) = true /\
-  exists f, read_table_file SOther true (render_wfile [noheader_table]) = ROk [mkTable None f] /\
-            length (f_rows f) = 1%nat /\ length (f_rows (frame_of_wtable noheader_table)) = 2%nat.
-Proof.
-  split; [reflexivity|]. split; [vm_compute; reflexivity|].
-  eexists. split; [vm_compute; reflexivity|]. split; reflexivity.
-Qed.
+Example noheader_fixed :
+  wtable_notitle_ok true noheader_table = true /\
+  read_table_file SOther true true (render_wfile [noheader_table]) =
+  ROk [mkTable None (mkFrame [[48]; [49]] [(0%nat, [CNum 1; CNum (5 # 2)]); (1%nat, [CNum 2; CNum (-7 # 2)])])].
+Proof. split; vm_compute; reflexivity. Qed.
 
-(* C20-COR-READONLY: the same run directory, read with a pandas whose DataFrame.values is writable and with one
-   where it is a read-only view (pandas >= 3): the second raises (ValueError) in np.fill_diagonal(cor.values, 1) *)
+(* C20-COR-READONLY (fixed 67546b1): a run directory with a .cor file.  Formerly np.fill_diagonal(cor.values, 1)
+   raised under pandas >= 3; now the correlation matrix is reported with a unit diagonal. *)
 Definition nl : N := 10.
 Definition sp (k : nat) : text := repeat 32 k.
 Definition title1 : text :=
@@ -108,12 +98,7 @@ Definition ext_text : text :=
 Definition cor_text : text :=
   title1 ++ [32] ++ s_NAME ++ sp 9 ++ s_THETA1 ++ [nl] ++ sp 7 ++ s_THETA1 ++ sp 2 ++ n2 ++ [nl].
 
-Theorem cor_readonly_refuted :
-  (exists r, read_run (Some ext_text) [] [] true None (Some cor_text) None true = ROk (RunOk r) /\
-             option_map m_vals (rr_cor r) = Some [[CNum 1]]) /\
-  read_run (Some ext_text) [] [] true None (Some cor_text) None false = RErr 2.
-Proof.
-  split.
-  - eexists. split; vm_compute; reflexivity.
-  - vm_compute. reflexivity.
-Qed.
+Example cor_read_fixed :
+  exists r, read_run (Some ext_text) [] [] true None (Some cor_text) None = ROk (RunOk r) /\
+            option_map m_vals (rr_cor r) = Some [[CNum 1]].
+Proof. eexists. split; vm_compute; reflexivity. Qed.
